@@ -164,6 +164,23 @@ func isNumLit(t T) (int64, bool) {
 	if t == "" {
 		return 0, false
 	}
+	// (+ a b) and (- a b) of numerals (lengths of sliced constants)
+	if strings.HasPrefix(string(t), "(+ ") || strings.HasPrefix(string(t), "(- ") {
+		f := strings.Fields(strings.TrimSuffix(string(t)[3:], ")"))
+		if len(f) == 2 {
+			a, ok1 := isNumLit(T(f[0]))
+			b, ok2 := isNumLit(T(f[1]))
+			if ok1 && ok2 {
+				if t[1] == '+' {
+					return a + b, true
+				}
+				if a >= b {
+					return a - b, true
+				}
+			}
+		}
+		return 0, false
+	}
 	var v int64
 	for _, c := range t {
 		if c < '0' || c > '9' {
